@@ -1598,7 +1598,11 @@ private:
     }
     else
     {
-      _peerIndex.erase(pkey);
+      // Several sessions may share a peer key (viaDo); only the one the index
+      // maps to owns the entry, so closing another must not unroute the peer.
+      auto pit = _peerIndex.find(pkey);
+      if (pit != _peerIndex.end() && pit->second == sid)
+        _peerIndex.erase(pit);
     }
 
     _atomicStats.closed++;
